@@ -987,11 +987,30 @@ pub fn main(ctx: &Ctx) -> i32 {
         assumptions: vec![
             "crash model of the property: process death, OS survives, each write call atomic, program order; no torn or reordered writes, no fsync semantics".into(),
             "ops are issued one at a time, each followed by the write barrier, so at most one operation is in flight at any prefix".into(),
-            "store mode mirrors the catalogue messages of compaction (NewSnapshot/Flush/CompleteSnapshot/BuildSnapshotPointerLog); the real compaction of a full node is exercised by C01".into(),
+            "store mode mirrors the catalogue messages of compaction (NewSnapshot/Flush/CompleteSnapshot/BuildSnapshotPointerLog); the node tier (c04n.rs) runs generated histories with real compactions in a full node under the same journal and requires, for every prefix, that a restarted node serves the state after j steps for some durable <= j <= submitted".into(),
         ],
         exhaustive: Some(true),
     };
     if let Some(p) = &ctx.replay {
+        if let Ok(nrp) = read_replay::<crate::c04n::NodeCrashReplay>(p) {
+            let r = crate::c04n::replay(ctx, &nrp, &work);
+            std::fs::remove_dir_all(&work).ok();
+            return match r {
+                Ok(None) => {
+                    println!("OK property={} replay passed", ctx.id);
+                    0
+                }
+                Ok(Some((_, m))) => {
+                    println!("violation detail: {}", m);
+                    println!("VIOLATION property={} replay={}", ctx.id, p.display());
+                    1
+                }
+                Err(e) => {
+                    eprintln!("replay inconclusive: {}", e);
+                    2
+                }
+            };
+        }
         let rp: CrashReplay = match read_replay(p) {
             Ok(c) => c,
             Err(e) => {
@@ -1091,6 +1110,21 @@ pub fn main(ctx: &Ctx) -> i32 {
         if let Some((k, msg)) = enumerate(&rec, &work, &tag, &stats, None) {
             violation = Some((CrashReplay { case: case.clone(), prefix: k }, msg));
             break;
+        }
+    }
+    if violation.is_none() {
+        // node tier: crash points inside a full node (real write path, real compaction), see c04n.rs
+        match crate::c04n::run_tier(ctx, &stats, &work, ctx.tier.pick(4usize, 60usize)) {
+            Ok(None) => {}
+            Ok(Some((rp, msg))) => {
+                std::fs::remove_dir_all(&work).ok();
+                return finish(ctx, &stats, fin(), Some(Failure { case: rp, message: msg }));
+            }
+            Err(e) => {
+                eprintln!("C04 infrastructure problem (node tier): {}", e);
+                std::fs::remove_dir_all(&work).ok();
+                return 2;
+            }
         }
     }
     std::fs::remove_dir_all(&work).ok();
